@@ -73,3 +73,64 @@ func vh_event_debouncer_stop() {
 	e.flusher()
 	vAssert(len(e.quit) == 0, "C06/debouncer/event-flusher-receives-stops-rendezvous")
 }
+
+// ---- C16: a refresh request made while a refresh is running gets a refresh of its own ----
+//
+// The running refresh has already read the cluster's tables, so it cannot serve a request (topology
+// event -> debounce, reconnect -> refreshNow) that arrives after it started. The environment makes
+// such a request from inside the first refresh; stop() arrives only when the flusher has nothing
+// left to do (a deferred goroutine: it runs when the flusher waits).
+var (
+	vRDTimerC chan time.Time
+	vRDLate   bool
+)
+
+func vstubTimerResetFires(t *time.Timer, d time.Duration) bool {
+	select {
+	case vRDTimerC <- time.Time{}: // the debounce interval elapses (time is the environment's)
+	default:
+	}
+	return true
+}
+
+func vStopWhenIdle() { vStopArrives() }
+
+func vh_refresh_debouncer_requests() {
+	vRefreshes, vRDLate = 0, false
+	vRDTimerC = make(chan time.Time, 1)
+	var d *refreshDebouncer
+	d = &refreshDebouncer{
+		refreshNowCh: make(chan struct{}, 1),
+		quit:         make(chan struct{}),
+		interval:     time.Second,
+		timer:        &time.Timer{C: vRDTimerC},
+		refreshFn: func() error {
+			vRefreshes++
+			vAssume(vRefreshes <= 3)
+			if vRefreshes == 1 && vBool("a_request_arrives_while_the_refresh_runs") {
+				vRDLate = true
+				if vBool("it_is_refresh_now") {
+					d.refreshNow()
+				} else {
+					d.debounce()
+				}
+			}
+			return nil
+		},
+	}
+	vRD = d
+	if vBool("first_request_is_refresh_now") {
+		d.refreshNow()
+	} else {
+		d.debounce()
+	}
+	go vStopWhenIdle()
+	d.flusher()
+	vAssert(d.stopped, "C06/debouncer/flusher-exits-only-when-stopped")
+	if vRDLate {
+		vAssert(vRefreshes == 2, "C16/debouncer/a-request-made-during-a-refresh-gets-a-refresh-of-its-own")
+	} else {
+		vAssert(vRefreshes == 1, "C16/debouncer/one-refresh-per-burst-of-requests")
+	}
+	vObserve("refreshes", vRefreshes)
+}
